@@ -212,6 +212,7 @@ fn bump_cap(cap: &mut MerkleCap<F, H>, r: &mut ChaCha8Rng) -> Option<Value> {
     Some(json!({"entry": i, "elt": j}))
 }
 fn split_class(class: &str) -> (&str, Option<usize>) {
+    let class = class.strip_suffix("@last").unwrap_or(class);
     match class.split_once(':') {
         Some((b, a)) => (b, a.parse::<usize>().ok()),
         None => (class, None),
@@ -229,10 +230,19 @@ fn model_layer(l: usize, nreal: usize) -> usize {
 }
 
 /// shape-preserving value tamper of one element of the component `class`
+#[allow(dead_code)]
 fn tamper(p: &mut SP, class: &str, r: &mut ChaCha8Rng) -> Option<Value> {
-    let (base, arg) = split_class(class);
     let nreal = p.proof.opening_proof.commit_phase_merkle_caps.len();
-    let arg = if matches!(base, "commit_cap" | "step_eval" | "step_path") { arg.map(|l| model_layer(l, nreal)) } else { arg };
+    let real = split_class(class).1.map(|l| model_layer(l, nreal));
+    tamper_at(p, class, real, r)
+}
+/// `real_layer`: the REAL layer for the layer-indexed classes; `kind:i@last` = last query round, sibling classes
+/// without the suffix = first query round
+fn tamper_at(p: &mut SP, class: &str, real_layer: Option<usize>, r: &mut ChaCha8Rng) -> Option<Value> {
+    let (base, arg) = split_class(class);
+    let arg = if matches!(base, "commit_cap" | "step_eval" | "step_path") { real_layer } else { arg };
+    let nrounds = p.proof.opening_proof.query_round_proofs.len();
+    let round = if class.ends_with("@last") { nrounds - 1 } else if matches!(base, "init_path" | "step_path") { 0 } else { r.gen_range(0..nrounds) };
     match base {
         "pis" => {
             let i = r.gen_range(0..p.public_inputs.len());
@@ -263,7 +273,7 @@ fn tamper(p: &mut SP, class: &str, r: &mut ChaCha8Rng) -> Option<Value> {
             Some(json!({}))
         }
         "init_leaf" | "init_path" => {
-            let q = r.gen_range(0..fp.query_round_proofs.len());
+            let q = round;
             let eps = &mut fp.query_round_proofs[q].initial_trees_proof.evals_proofs;
             let o = arg?;
             if o >= eps.len() {
@@ -284,7 +294,7 @@ fn tamper(p: &mut SP, class: &str, r: &mut ChaCha8Rng) -> Option<Value> {
             }
         }
         "step_eval" | "step_path" => {
-            let q = r.gen_range(0..fp.query_round_proofs.len());
+            let q = round;
             let steps = &mut fp.query_round_proofs[q].steps;
             let l = arg?;
             if l >= steps.len() {
@@ -320,6 +330,12 @@ fn prove_with(stark: Chain, cfg: &StarkConfig, rows: &[Vec<F>], pis: &[F], vpara
         Ok(Err(e)) => Err(format!("prove err: {e:#}")),
         Err(p) => Err(format!("prove panic: {p}")),
     }
+}
+
+fn pow_response(stark: Chain, p: &SP, cfg: &StarkConfig, vparams: Option<FriParams>) -> u64 {
+    use plonky2::field::types::PrimeField64;
+    let mut ch = plonky2::iop::challenger::Challenger::<F, H>::new();
+    p.get_challenges(&stark, &mut ch, None, None, false, cfg, vparams).fri_challenges.fri_pow_response.to_canonical_u64()
 }
 
 fn native(stark: Chain, p: &SP, cfg: &StarkConfig, vparams: Option<FriParams>) -> (bool, String) {
@@ -394,6 +410,9 @@ fn run_scenario(s: &Value, selftest_all: bool) -> Vec<Value> {
             }
         };
         let nlayers = honest.proof.opening_proof.commit_phase_merkle_caps.len();
+        out.push(json!({"id": id, "db": db, "length": {"layers": nlayers, "rounds": honest.proof.opening_proof.query_round_proofs.len(),
+            "init_siblings": honest.proof.opening_proof.query_round_proofs[0].initial_trees_proof.evals_proofs[0].1.siblings.len(),
+            "step_siblings": honest.proof.opening_proof.query_round_proofs[0].steps.iter().map(|st| st.merkle_proof.siblings.len()).collect::<Vec<_>>()}}));
         let classes: Vec<String> = serde_json::from_value(s["classes"][nlayers.min(3).to_string()].clone()).unwrap_or_default();
         // binding self-test (scenario field "selftest"): an extra pass over final_poly with the untampered proof assigned
         let passes: Vec<(bool, Vec<String>)> = if s["selftest"].as_bool().unwrap_or(false) {
@@ -417,6 +436,32 @@ fn run_scenario(s: &Value, selftest_all: bool) -> Vec<Value> {
                         k.lenient_trim = true;
                         if let Ok(p) = prove_with(stark, &cfg, &rows2, &pis, vparams.clone(), Some(k)) {
                             cases.push((p, json!({"row": i, "col": j})));
+                        }
+                    }
+                }
+                "pow_short1" | "pow_exact" => {
+                    // boundary of the grinding condition (the STARK prover is deterministic: candidates are tried by hashing)
+                    let bits = cfg.fri_config.proof_of_work_bits;
+                    let zeros = if c == "pow_short1" { bits.wrapping_sub(1) } else { bits };
+                    if (1..=10).contains(&bits) {
+                        let mut q = honest.clone();
+                        let mut found = None;
+                        for _ in 0..8000 {
+                            let w = r.gen_range(0..P);
+                            q.proof.opening_proof.pow_witness = F::from_canonical_u64(w);
+                            if pow_response(stark, &q, &cfg, vparams.clone()).leading_zeros() == zeros {
+                                found = Some(w);
+                                break;
+                            }
+                        }
+                        if let Some(w) = found {
+                            let mut k = Knobs::default();
+                            k.pow_witness = Some(w);
+                            if let Ok(p) = prove_with(stark, &cfg, &rows, &pis, vparams.clone(), Some(k)) {
+                                if pow_response(stark, &p, &cfg, vparams.clone()).leading_zeros() == zeros {
+                                    cases.push((p, json!({"pow_witness": w, "leading_zeros": zeros, "pow_bits": bits})));
+                                }
+                            }
                         }
                     }
                 }
@@ -446,11 +491,19 @@ fn run_scenario(s: &Value, selftest_all: bool) -> Vec<Value> {
                         cases.push((p, d));
                     }
                 }
-                _ => {
-                    for _ in 0..per_class {
-                        let mut p = honest.clone();
-                        if let Some(d) = tamper(&mut p, c, &mut r) {
-                            cases.push((p, d));
+                base => {
+                    // a sibling of EVERY folding step: the model's middle layer stands for all real middle layers
+                    let mut layers: Vec<Option<usize>> = vec![split_class(c).1.map(|l| model_layer(l, nlayers))];
+                    if base == "step_path" && nlayers > 3 && split_class(c).1 == Some(1) {
+                        layers = (1..nlayers - 1).map(Some).collect();
+                    }
+                    let reps = if matches!(base, "init_path" | "step_path") { 1 } else { per_class };
+                    for real in layers {
+                        for _ in 0..reps {
+                            let mut p = honest.clone();
+                            if let Some(d) = tamper_at(&mut p, c, real, &mut r) {
+                                cases.push((p, d));
+                            }
                         }
                     }
                 }
